@@ -11,6 +11,7 @@ import Gv.Proofs.EvalLemmas
 import Gv.Proofs.StructuralSound
 import Gv.Proofs.PlanCheckSound
 import Gv.Proofs.Safety
+import Gv.Proofs.GenSound
 
 namespace Gv.Props.C02
 open Gv Gv.Str Gv.Eval
@@ -537,5 +538,74 @@ theorem C02_total_needs_descent :
     intro fuel n
     exact (both fuel).1 n
 end ExRank
+
+/-! ### end to end on the unnamed (struct) fragment: from `generate` to the values, without the run-time plan check
+
+For a converter with one declared method whose signature lies in the fragment FS of `C03_iff_unnamed_struct_fragment` (unnamed
+types, structs with exported fields, no settings; kinds alias-free, no array directly inside a list or field, target structs
+non-empty with distinct names), `checkProg` of the GENERATED table is a theorem (`Gv.Gen.generate_sound_struct_fragment`), so
+both halves of C02 hold for whatever `generate` returns, for all values. -/
+
+open Gv.Typing Gv.Safety Gv.Spec Gv.Gen in
+/-- **C02 end to end on FS.**  If `generate` succeeds, then for the generated method, every well-typed source value and every fuel:
+ 1. whatever the call returns is the structural image of the source (`Img`);
+ 2. the call never panics, never returns an error, and is stuck only for lack of fuel;
+ 3. for a completely well-typed value there is a fuel bound from which it returns a value, which is the image. -/
+theorem C02_end_to_end_unnamed_struct_fragment (c : Converter) (d : Declared) (z : Bool) (fuel rounds : Nat)
+    (hup : d.updateTarget = false) (hraw : d.cfg.rawFieldSettings = []) (hctor : d.cfg.constructor = none)
+    (hs : inFS d.source = true) (ht : inFS d.target = true)
+    (hfuel : 2 * (tySize d.source + tySize d.target) < fuel) (hrounds : 2 ≤ rounds)
+    (hext : c.extend = [])
+    (hu : d.cfg.common.useUnderlying = false) (hsk : d.cfg.common.skipCopySameType = false)
+    (hz : d.cfg.common.useZeroValue = z)
+    (h1 : d.cfg.common.matchIgnoreCase = false) (h2 : d.cfg.common.ignoreMissing = false)
+    (h3 : d.cfg.fields = []) (h4 : d.cfg.autoMap = [])
+    (ha1 : aliasFree d.source = true) (ha2 : aliasFree d.target = true) (ha3 : arrayElemFree false d.source = true)
+    (ha4 : structsOK d.target = true)
+    (ms : List GenMethod) (hgen : generate c [d] fuel rounds = .ok ms) :
+    (∀ (efuel : Nat) (v : Val) (n : Nat) (v' : Val) (n' : Nat), WT c.env v d.source →
+      callMethod { conv := c, methods := ms } efuel 0 v [] n = .ok (v', n') → Img c.env d.source d.target v (erase v')) ∧
+    (∀ (efuel : Nat) (v : Val) (cs : List Val) (n : Nat), WTC c.env v d.source →
+      (∀ k, callMethod { conv := c, methods := ms } efuel 0 v cs n ≠ .panic k) ∧
+      (∀ e, callMethod { conv := c, methods := ms } efuel 0 v cs n ≠ .err e) ∧
+      (∀ why, callMethod { conv := c, methods := ms } efuel 0 v cs n = .stuck why → why = "fuel")) ∧
+    (∀ (v : Val), WTC c.env v d.source →
+      ∃ N, ∀ efuel, N ≤ efuel → ∀ n, ∃ w n', callMethod { conv := c, methods := ms } efuel 0 v [] n = .ok (w, n') ∧
+        Img c.env d.source d.target v (erase w)) := by
+  obtain ⟨hchk, hsig, hdesc⟩ := generate_sound_struct_fragment c d z fuel rounds hup hraw hctor hs ht hfuel hrounds hext hu hsk hz
+    h1 h2 h3 h4 ha1 ha2 ha3 ha4 ms hgen
+  refine ⟨?_, ?_, ?_⟩
+  · intro efuel v n v' n' hwt hev
+    exact C02_composite { conv := c, methods := ms } hchk efuel 0 d.source d.target v n v' n' hsig hwt hev
+  · intro efuel v cs n hwt
+    exact C02_never_panics { conv := c, methods := ms } hchk efuel 0 d.source d.target v cs n hsig hwt
+  · intro v hwt
+    exact C02_terminates_with_image { conv := c, methods := ms } hchk (fun _ => 0) (hdesc _) 0 d.source d.target v hsig hwt
+
+/-! non-vacuity: `Convert(struct{A int; B []*string}) struct{A int; B []*string}` meets every hypothesis and is generated -/
+
+namespace ExE2E
+open Gv.Gen Gv.Spec
+
+def fld (n : String) : FieldInfo := { name := n.toList, exported := true, embedded := false, pkg := [] }
+def eTy : Ty := .struct (.cons (fld "A") (.basic .int) (.cons (fld "B") (.slice (.ptr (.basic .string))) .nil))
+def eConv : Converter := { env := [], common := {}, outputPkg := [], customs := [], extend := [], orc := {} }
+def eDecl : Declared :=
+  { name := "Convert".toList, source := eTy, target := eTy, args := [{ name := "source".toList, use := .source, ty := eTy }],
+    contexts := [], returnError := false, updateTarget := false, cfg := { common := {} } }
+
+example : inFS eDecl.source = true ∧ aliasFree eDecl.source = true ∧ arrayElemFree false eDecl.source = true ∧
+    structsOK eDecl.target = true ∧ 2 * (tySize eDecl.source + tySize eDecl.target) < 200 ∧
+    ∃ ms, generate eConv [eDecl] = .ok ms := by
+  refine ⟨by decide, by decide, by decide, by decide, by decide, ?_⟩
+  rw [generate_single_struct eConv eDecl false 200 64 rfl rfl rfl (by decide) (by decide) (by decide) (by decide) rfl rfl rfl rfl rfl rfl
+    rfl rfl]
+  have hc : Convertible false eDecl.source eDecl.target :=
+    .struct (.cons (sty := .basic .int) (by simp [fieldTy, fld]) (.basic rfl)
+      (.cons (sty := .slice (.ptr (.basic .string))) (by simp [fieldTy, fld]) (.slice (.ptrPtr (.basic rfl))) .nil))
+  obtain ⟨plan, hp⟩ := convertible_genF_ok false hc false
+  exact ⟨_, by rw [hp]⟩
+
+end ExE2E
 
 end Gv.Props.C02
